@@ -469,7 +469,11 @@ func (runtime *Runtime) deliverDeduplicatedEvents(ch chan dedup, empty chan<- de
 		runtime.controllersMu.RLock()
 
 		for _, ctrl := range controllers {
-			runtime.controllers[ctrl].WatchTrigger(&k)
+			// the controller might be gone: the dependents were looked up before taking the lock,
+			// and a registration which was in progress at that time might have been rejected (and rolled back) since
+			if adapter, ok := runtime.controllers[ctrl]; ok {
+				adapter.WatchTrigger(&k)
+			}
 		}
 
 		runtime.controllersMu.RUnlock()
